@@ -89,6 +89,8 @@ def check_thin(rep, sc, threads, rng, idx, tier):
     lbox = [1.0, 4.0][idx % 2]
     f = lbox / 32.0
     dg, vec = build_group(sc, lbox)
+    if idx % 7 == 0:
+        dg["dx"] = dg["dx"].to(["m", "mm"][(idx // 7) % 2])        # the same cells, their size held in another length unit than the positions
     unit = ["cm", "m", "mm"][idx % 3]
     scale = {"cm": 1.0, "m": 0.01, "mm": 10.0}[unit]
     nx, ny = sc["nx"], sc["ny"]
@@ -98,6 +100,9 @@ def check_thin(rep, sc, threads, rng, idx, tier):
           "resolution": nx if (nx == ny and idx % 2) else {"x": nx, "y": ny}}
     if nd == 3:
         kw["direction"] = direction_of(sc)
+    if idx % 5 == 0:
+        # a reduction named on a map without thickness has nothing to reduce: same pixels, same mask
+        kw["operation"] = OPS[(idx // 5) % len(OPS)]
     layers = [dg.layer("density"), dg.layer("level"), dg.layer("velocity", mode="vec")]
     table = sc["table"][0]
     ids = np.array([[table[j][i][0] for i in range(nx)] for j in range(ny)])
@@ -222,6 +227,8 @@ def check_thick(rep, sc, threads, rng, idx, tier):
     lbox = [1.0, 4.0][idx % 2]
     f = lbox / 32.0
     dg, vec = build_group(sc, lbox)
+    if idx % 7 == 3:
+        dg["dx"] = dg["dx"].to(["m", "mm"][(idx // 7) % 2])
     unit = ["cm", "m", "mm"][idx % 3]
     scale = {"cm": 1.0, "m": 0.01, "mm": 10.0}[unit]
     nx, ny, nz = sc["nx"], sc["ny"], sc["nz"]
